@@ -27,9 +27,10 @@ RULE = ("each case holds ONE dataflow wired in 3-4 different admissible statemen
         "deliberately distinct duplicate; distinct by program text; stream rank-orders: one acyclic wiring (1-14 dummy nodes, 0-3 inputs, "
         "duplicated producers on one consumer, explicit rank dependencies, rank-free edges) declared in 3 different statement orders - "
         "the real Wiring::finish must accept every order and rank every producer before its consumers (the hypothesis of "
-        "run_rank_independent)")
-TRUSTED = ["key equality on Value scalars uses the code's Value::equals/hash: exercised for Int scalars only"]
-ASSUMPTIONS = ["all ports TS[int]; interning of nested-graph nodes is exercised only through distinct scalars"]
+        "run_rank_independent); " + ci.RULE)
+TRUSTED = ["key equality on Value scalars uses the code's Value::equals/hash: exercised for Int scalars and for an Int / a Float scalar of equal value"] + ci.TRUSTED[1:]
+ASSUMPTIONS = ["engine streams: all ports TS[int] (the intern streams add TS[float] / TS[bool] ports through generic definitions); "
+               "interning of nested-graph nodes is exercised only through distinct scalars"] + ci.ASSUMPTIONS
 TECHNIQUE = ("Lean 4 proof of the interning table (equal keys share, different keys differ, sinks never merge) + rank/scan "
              "order theorems + differential correspondence (the model ranks with the Kahn model and must match every statement "
              "order exactly) + cross-order monitor")
